@@ -252,6 +252,8 @@ class Parser(AttrParser):
                     [(original_definition, None)],
                 )
             self.forward_block_references.pop(name)
+            # Remember the definition, so that a second one is reported
+            self.blocks[name] = (block, name_token.span)
 
         # Don't set name_hint for blocks that match the default pattern, nor for
         # names that are not valid hints (e.g. the numeric label `^0`)
